@@ -1011,7 +1011,16 @@ TWINS = [
     Twin("benign: no blank after colon", _S, 'yield f"id: {sequence}\\ndata: {payload}\\n\\n"', 'yield f"id:{sequence}\\ndata:{payload}\\n\\n"', None),
     Twin("benign: concatenated frame", _S, 'yield f"id: {sequence}\\ndata: {payload}\\n\\n"', 'yield "id: " + str(sequence) + "\\n" + "data: " + payload + "\\n\\n"', None),
     Twin("benign: len() slice", _C, "current_id = stripped[3:].strip()", 'current_id = stripped[len("id:"):].strip()', None),
-    Twin("benign: inlined payload", _S, 'yield f"id: {sequence}\\ndata: {payload}\\n\\n"', 'yield f"id: {sequence}\\ndata: {envelope.model_dump_json()}\\n\\n"', None),
+    Twin("inlined payload loses the escape", _S, 'yield f"id: {sequence}\\ndata: {payload}\\n\\n"', 'yield f"id: {sequence}\\ndata: {envelope.model_dump_json()}\\n\\n"', "C17.R1"),
+    Twin("escape of the raw line separators removed (revert c46ef30)", _S, "payload = envelope.model_dump_json().translate(\n                        _LINE_SEPARATOR_ESCAPES\n                    )", "payload = envelope.model_dump_json()", "C17.R1"),
+    Twin("escape table loses U+2029", _S, ', 0x2029: "\\\\u2029"}', "}", "C17.R1"),
+    Twin("escape maps a separator to another separator", _S, '0x2028: "\\\\u2028"', '0x2028: "\\n"', "C17.R1"),
+    Twin("benign: inlined payload keeps the escape", _S, 'yield f"id: {sequence}\\ndata: {payload}\\n\\n"', 'yield f"id: {sequence}\\ndata: {envelope.model_dump_json().translate(_LINE_SEPARATOR_ESCAPES)}\\n\\n"', None),
+    Twin("benign: replace chain instead of translate", _S, "payload = envelope.model_dump_json().translate(\n                        _LINE_SEPARATOR_ESCAPES\n                    )",
+         'payload = envelope.model_dump_json().replace("\\x85", "\\\\u0085").replace("\\u2028", "\\\\u2028").replace("\\u2029", "\\\\u2029")', None),
+    Twin("benign: ASCII-only JSON writer", _S, "payload = envelope.model_dump_json().translate(\n                        _LINE_SEPARATOR_ESCAPES\n                    )",
+         'import json\n\n                    payload = json.dumps(envelope.model_dump(mode="json"))', None),
+    Twin("benign: pydantic ensure_ascii", _S, "payload = envelope.model_dump_json().translate(\n                        _LINE_SEPARATOR_ESCAPES\n                    )", "payload = envelope.model_dump_json(ensure_ascii=True)", None),
     Twin("benign: removeprefix", _C, "current_id = stripped[3:].strip()", 'current_id = stripped.removeprefix("id:").strip()', None),
     Twin("benign: server escapes the separators JSON leaves raw", _S, "payload = envelope.model_dump_json()",
          'payload = envelope.model_dump_json().replace("\\x85", "\\\\u0085").replace("\\u2028", "\\\\u2028").replace("\\u2029", "\\\\u2029")', None),
@@ -1037,5 +1046,5 @@ TWINS = [
     Twin("server shifts the cursor", _S, "                after_sequence = int(after_sequence_str)\n", "                after_sequence = int(after_sequence_str) + 1\n", "C17.R4"),
     Twin("id is a running counter, not the stored sequence", _S, "                yield stored_event.sequence, envelope\n", "                yield after_sequence + 1, envelope\n", "C17.R4"),
     Twin("benign: local for the stored sequence", _S, "                yield stored_event.sequence, envelope\n", "                seq = stored_event.sequence\n                yield seq, envelope\n", None),
-    Twin("benign: extra keyword on the JSON writer", _S, "                    payload = envelope.model_dump_json()\n", "                    payload = envelope.model_dump_json(by_alias=False)\n", None),
+    Twin("benign: extra keyword on the JSON writer", _S, "payload = envelope.model_dump_json().translate(", "payload = envelope.model_dump_json(by_alias=False).translate(", None),
 ]
